@@ -5,6 +5,8 @@ hash.hpp on every run.
 -/
 import ChaiVerif.Lemmas.Lit
 import ChaiVerif.Gen.Lit
+import ChaiVerif.Model.LitCfg
+import ChaiVerif.Lemmas.LitEscape
 namespace ChaiVerif.C16
 open ChaiVerif
 
@@ -116,5 +118,28 @@ theorem keyword_set_exact :
     Gen.keywords = [[116, 114, 117, 101], [102, 97, 108, 115, 101], [73, 110, 102, 105, 110, 105, 116, 121], [78, 97, 78],
       [95, 95, 76, 73, 78, 69, 95, 95], [95, 95, 70, 73, 76, 69, 95, 95], [95, 95, 70, 85, 78, 67, 95, 95],
       [95, 95, 67, 76, 65, 83, 83, 95, 95], [95]] := by decide
+
+/-! ### the escape machine computes the specified decoding -/
+
+/-- the configuration regenerated from the source is the strict one the machine theorem is about -/
+theorem escape_machine_config : genCfg = Esc.cfg Gen.utf8Rows := rfl
+
+/-- **`Char_Parser` ≡ the declarative decoding of a literal body**, for EVERY byte string the lexer can hand it (one that does not end
+    right after an unescaped backslash: a literal ends at an unescaped quote): fed byte by byte and finished, the machine of the
+    current source succeeds (`okOpt` = its result, `none` for any error) exactly when the C++-style decoding `cppUnescape` is defined, and then yields the same bytes — simple
+    escapes, `\\`, 1–3 octal digits, `\x` + 1–2 hex digits, `\u` + 4 and `\U` + 8 hex digits as UTF-8, and every malformed shape
+    (unknown escape, `\x` without digits, short `\u`/`\U`, surrogates, code points ≥ 0x110000) is an error in both. -/
+theorem escape_machine_is_spec (cs : List Nat) (h : Esc.endsEscaped false cs = false) :
+    Esc.okOpt (charParser genCfg cs) = cppUnescape cs.length cs := by
+  have hM := Esc.machine_eq_spec Gen.utf8Rows utf8_is_standard cs.length cs [] (Nat.le_refl _) h
+  rw [escape_machine_config]
+  have e1 : charParser (Esc.cfg Gen.utf8Rows) cs = Esc.M Gen.utf8Rows (Esc.idle []) cs := rfl
+  rw [e1, hM]
+  cases cppUnescape cs.length cs <;> simp
+
+/-- non-vacuity: a body with every escape shape satisfies the hypothesis and decodes -/
+example : Esc.endsEscaped false [97, 92, 110, 92, 49, 48, 49, 92, 120, 52, 49, 92, 117, 48, 48, 101, 57, 92, 92] = false ∧
+    cppUnescape 19 [97, 92, 110, 92, 49, 48, 49, 92, 120, 52, 49, 92, 117, 48, 48, 101, 57, 92, 92] = some [97, 10, 65, 65, 195, 169, 92] := by
+  decide
 
 end ChaiVerif.C16
